@@ -286,7 +286,7 @@ def body_transform(c, ctx):
 def case_join(draw, tier):
     desc = draw(gm.mesh(kinds=('line', 'tri', 'quad', 'tet', 'hex'), max_cells=10, max_cells_3d=5, allow_affine=False,
                         bases=['tensor'], allow_holes=False, allow_jiggle=False))
-    how = draw(st.sampled_from(['add_shift', 'add_mirror', 'add_scaled_mirror', 'add_disjoint', 'matmul_one', 'matmul_list', 'rmatmul']))
+    how = draw(st.sampled_from(['add_shift', 'add_mirror', 'add_scaled_mirror', 'add_matmul_parts', 'add_disjoint', 'matmul_one', 'matmul_list', 'rmatmul']))
     return dict(mesh=desc, how=how, n=draw(st.integers(2, 3)))
 
 
@@ -307,6 +307,10 @@ def body_join(c, ctx):
             other = m.translated(tuple(shift))
         elif how == 'add_mirror':
             other = m.mirrored(tuple([1.0] + [0.0] * (d - 1)), tuple([float(m.p[0].max())] + [0.0] * (d - 1)))
+        elif how == 'add_matmul_parts':
+            # the two parts of m @ n share one point array: each part ends with points its own cells do not use
+            m, other = m @ m.translated(tuple(shift))
+            before = mhash(m)
         elif how == 'add_scaled_mirror':
             # mirror image through x = 0 obtained by scaling: the shared vertices are stored as 0.0 in one operand, -0.0 in the other
             m = m.translated(tuple([-float(m.p[0].min())] + [0.0] * (d - 1)))
@@ -329,7 +333,7 @@ def body_join(c, ctx):
             ctx.fail('join_vertices', f'{new.p.shape[1]} vertices, {len(allpts)} distinct coordinates', **sig)
         if type(new) is not type(m):
             ctx.fail('class_changed', '', **sig)
-        if how not in ('add_mirror', 'add_scaled_mirror'):
+        if how not in ('add_mirror', 'add_scaled_mirror', 'add_matmul_parts'):
             validity(ctx, new, sig)
     else:
         others = [m.translated(tuple([k * width] + [0.0] * (d - 1))) for k in range(1, c['n'] + 1)]
